@@ -25,7 +25,7 @@ EXPLAIN = ("observations (returned values, throw/no-throw, iteration order, quer
            "ParameterizedObject differ from the Lean model for which keys_nodup, flatmap_refines, "
            "param_type_mismatch_default and param_query_flag are proved")
 
-PTYPES = ["int", "float", "string", "bool", "long", "vec3f", "key"]
+PTYPES = ["int", "float", "string", "bool", "long", "vec3f", "key", "thr"]
 
 
 def _tok(kind, x):
@@ -66,7 +66,8 @@ def gen_cases(rng, tier, h):
             v = str(rng.randrange(1, 9)) if t != "bool" else "1"   # for "key": 4a+b, equal (operator==) iff same a
             d = str(rng.randrange(10, 19)) if t != "bool" else "0"
             r = rng.random()
-            if r < 0.30: c.append("pset %s %s %s" % (nm, t, v))
+            if r < 0.06: c.append("pset_throw %s %s" % (nm, rng.randrange(1, 9)))
+            elif r < 0.30: c.append("pset %s %s %s" % (nm, t, v))
             elif r < 0.62: c.append("pget %s %s %s" % (nm, t, d))
             elif r < 0.70: c.append("phas " + nm)
             elif r < 0.80: c.append("prem " + nm)
